@@ -299,6 +299,21 @@ func genRegion(r *rand.Rand) *region {
 			return map[string]any{"loop_kind": sp.Kind, "n": len(sp.Vs), "head": gen.HexAll(sp.Vs[:3]...)}
 		}
 	case 7: // polygon with holes
+		if r.Intn(5) == 0 { // a polygon whose vertices are the corners of a cell: its vertices are centres of coarser cells
+			cell := s2.CellFromCellID(s2.CellFromPoint(ctr).ID().Parent(2 + r.Intn(20)))
+			p := s2.PolygonFromCell(cell)
+			vs := []s2.Point{cell.Vertex(0), cell.Vertex(1), cell.Vertex(2), cell.Vertex(3)}
+			model := ref.NewLoopModel(gen.Vs(vs), origin, gen.RefDir)
+			rg.r, rg.kind, rg.diam = p, "CellPolygon", vs[0].Distance(vs[2]).Radians()
+			rg.in = func(q s2.Point) bool { return model.Contains(gen.V(q)) }
+			rg.points = append(append(rg.points, vs...), cell.Center())
+			rg.points = append(rg.points, gen.BoundaryProbes(r, vs, 12)...)
+			for k := 0; k < 8; k++ {
+				rg.points = append(rg.points, gen.Near(r, cell.Center(), 0.45*rg.diam*r.Float64()))
+			}
+			rg.desc = func() any { return map[string]any{"polygon_from_cell": cell.ID().ToToken()} }
+			break
+		}
 		if r.Intn(3) == 0 { // two separate discs, inverted once (nearly the whole sphere) or twice (the discs again)
 			rad := math.Min(size, 0.5)
 			x, y, z := gen.Frame(ctr)
